@@ -4,7 +4,7 @@
    early, late, duplicated or carry any ID).  [good c] = the skeleton facts of the repaired code ([fixed]); the
    generated skeleton (Gen/ReqResp.v, from the Go source) must compute to [fixed]. *)
 From Coq Require Import List NArith Bool.
-From LE Require Import P2P.ReqResp P2P.ReqRespProofs P2P.ReqRespCount Gen.ReqResp.
+From LE Require Import P2P.ReqResp P2P.ReqRespProofs P2P.ReqRespCount P2P.ReqRespDrop Gen.ReqResp.
 Import ListNotations.
 Local Open Scope N_scope.
 
@@ -42,6 +42,17 @@ Proof. exact no_lost_reply. Qed.
    ==> delivered (C17_no_lost_reply), and nothing else is dropped before the lock (the list is regenerated from the source). *)
 Theorem C17_drops_before_lock_are_the_pinned_ones :
   gen_onresp_drops = onresp_drops_modelled /\ gen_onreq_drops = onreq_drops_modelled.
+Proof. vm_compute. split; reflexivity. Qed.
+
+(* ... over every continuation of every state (so in particular of every reachable one): the goroutine of such a message never takes
+   resMu and never delivers *)
+Theorem C17_bad_message_never_delivered : forall c es s s' t th,
+  run c s es = Some s' -> get (thrs s) t = Some th -> inert (tpc th) ->
+  (exists th', get (thrs s') t = Some th' /\ inert (tpc th')) /\
+  forall pre e post, es = pre ++ e :: post -> e <> Lock t /\ e <> Deliver t.
+Proof. exact bad_message_never_delivered. Qed.
+
+Theorem C17_pinned_bodies : gen_pinned_bodies = pinned_bodies_modelled /\ gen_timeout_writers = nil.
 Proof. vm_compute. split; reflexivity. Qed.
 
 Theorem C17_drop_only_bad_and_inert : forall c s t s', step c s (Drop t) = Some s' ->
